@@ -157,7 +157,75 @@ def history(cfg, log, async_, rng, n_steps, recs, meta):
             seg = bytes(rng.randrange(256) for _ in range(n))
         prev_update = (off, seg)
         calls.clear()
+        # sometimes an observer applies ANOTHER update to the same structure from inside its callback (a client that
+        # reacts to a change by refreshing or writing): the outer update's remaining items are still notified, each
+        # once, against the block as it was before the outer update
+        nested = None
+        changed_now = [t for t in tags if max(off, accs[t].pos) < min(off + n, accs[t].pos + accs[t].length)
+                       and _word(old, accs[t]) != _word(old[:off] + seg + old[off + n:], accs[t])]
+        if not repeat and len(changed_now) >= 2 and rng.random() < 0.25:
+            first = changed_now[0]
+            # a byte far away from the outer update and from every item it touches
+            lo2 = max(0, off - 8)
+            hi2 = min(1024, off + n + 8)
+            cand = [p_ for p_ in range(0, 1024) if p_ < lo2 or p_ >= hi2]
+            if cand:
+                off2 = rng.choice(cand)
+                seg2 = bytes([(old[off2] + 1 + rng.randrange(255)) % 256])
+                state_ = {"done": False}
+
+                class Trig:
+                    def cb(self_, sender, o_, n_):
+                        calls.append((first, 3, o_, n_, st.status_block))
+                        if not state_["done"]:
+                            state_["done"] = True
+                            st.replace_status_block_segment(off2, seg2)
+                trig = Trig()
+                observers[(first, 3)] = trig
+                accs[first].watch(trig.cb)
+                ops[first].append({"op": "w", "o": 3})
+                nested = (off2, seg2, first)
         st.replace_status_block_segment(off, seg)
+        if nested is not None and not state_["done"]:
+            # (the chosen item did not notify after all: an ordinary step with one more observer registered)
+            accs[nested[2]].unwatch(observers[(nested[2], 3)].cb)
+            ops[nested[2]].append({"op": "u", "o": 3})
+            nested = None
+        if nested is not None:
+            off2, seg2, first = nested
+            mid = old[:off] + seg + old[off + n:]
+            final = st.status_block
+            in2 = lambda t_: max(off2, accs[t_].pos) < min(off2 + 1, accs[t_].pos + accs[t_].length)
+            calls_outer = [c for c in calls if not in2(c[0])]
+            calls_inner = [c for c in calls if in2(c[0])]
+            unit = "F"
+            if has_units:
+                unit = "C" if accs["TempUnits"].value == "C" else "F"
+            for (o_, n_, blk_old, blk_new, cl) in ((off, n, old, mid, calls_outer), (off2, 1, mid, final, calls_inner)):
+                touched = [t for t in tags if max(o_, accs[t].pos) < min(o_ + n_, accs[t].pos + accs[t].length)]
+                fired_ = {c[0] for c in cl}
+                if len(touched) > 40:
+                    keep = set(rng.sample(touched, 40)) | fired_
+                    touched = [t for t in touched if t in keep]
+                sel_ = list(dict.fromkeys(touched + sorted(fired_)))
+                items_, index_ = [], {}
+                for t in sel_:
+                    a = accs[t]
+                    index_[t] = len(items_) + 1
+                    items_.append({"tag": t, "pos": a.pos, "shape": shapes[t],
+                                   "labels": list(a.items) if isinstance(a.items, list) else [],
+                                   "oldw": _word(blk_old, a), "neww": _word(blk_new, a), "ops": list(ops[t]), "unit": unit})
+                crecs_ = []
+                for (t, oid, o2_, nw, blk) in cl:
+                    crecs_.append({"item": index_[t], "o": oid, "old": _canon(accs[t], shapes[t], o2_),
+                                   "new": _canon(accs[t], shapes[t], nw),
+                                   "sawnew": blk[o_:o_ + n_] == blk_new[o_:o_ + n_]})
+                recs.append({"off": o_, "n": n_, "items": items_, "calls": crecs_,
+                             "installed": final == mid[:off2] + seg2 + mid[off2 + 1:], "reentrant": True})
+                meta.append((name, step))
+            accs[first].unwatch(observers[(first, 3)].cb)
+            ops[first].append({"op": "u", "o": 3})
+            continue
         new = st.status_block
         fired = {c[0] for c in calls}
         touched = [t for t in tags if max(off, accs[t].pos) < min(off + n, accs[t].pos + accs[t].length)]
